@@ -23,7 +23,8 @@ const CORRUPTED_ENTRY_TEXT: &str = "corrupted-entry-text";
 /// base case of a recursive function into an unknown function: endless
 /// recursion). Such runs are `inconclusive`; the limit lets them end by a
 /// caught panic instead of a stack overflow that takes the worker down. Runs
-/// on intact text have no limit: there a stack overflow is a violation.
+/// of a single intact text have no limit: there a stack overflow is a violation.
+/// (Generated multi-file projects get the same limit: they can import themselves.)
 const CORRUPTED_TEXT_DEPTH: u32 = 200;
 /// Evaluation fuel for corrupted text: exhaustion is `inconclusive` there
 /// anyway (a flipped loop bound or condition is an honest long loop), so a
@@ -113,6 +114,11 @@ impl<'a> UnitRun<'a> {
         if spec.label == CORRUPTED_ENTRY_TEXT || spec.faults.iter().any(|f| f.corrupts_text()) {
             spec.depth_limit = CORRUPTED_TEXT_DEPTH;
             spec.eval_fuel = CORRUPTED_TEXT_FUEL;
+        } else if spec.files.len() > 1 && spec.depth_limit == 0 {
+            // a generated multi-file project can import itself (an index file whose body is the
+            // corpus item `@import "foo/.."`): unbounded recursion of the project's own making,
+            // which the property leaves out. It ends as `inconclusive`, not as a stack overflow.
+            spec.depth_limit = CORRUPTED_TEXT_DEPTH;
         }
         let spec = &spec;
         let s2 = spec.clone();
@@ -560,6 +566,8 @@ impl Engine for FsFault {
         if spec.faults.iter().any(|f| f.corrupts_text()) {
             // a minimised case may carry the corruption in the file itself
             base.depth_limit = CORRUPTED_TEXT_DEPTH;
+        } else if base.files.len() > 1 && base.depth_limit == 0 {
+            base.depth_limit = CORRUPTED_TEXT_DEPTH;
         }
         let mut ref_ok = true;
         if !spec.faults.is_empty() {
@@ -570,6 +578,8 @@ impl Engine for FsFault {
         if spec.label == CORRUPTED_ENTRY_TEXT || spec.faults.iter().any(|f| f.corrupts_text()) {
             spec.depth_limit = CORRUPTED_TEXT_DEPTH;
             spec.eval_fuel = CORRUPTED_TEXT_FUEL;
+        } else if spec.files.len() > 1 && spec.depth_limit == 0 {
+            spec.depth_limit = CORRUPTED_TEXT_DEPTH; // self-importing project: see `case`
         }
         let r = run_job(&spec);
         match judge(&spec, &r, ref_ok).0 {
